@@ -534,10 +534,10 @@ var specLong = pbt.Register(&pbt.Spec[Long]{
 		"overflowing and underflowing products); strings of 7..5001 bytes that are equal, differ only in the first / middle / last byte (incl. 0x00 and 0xff), or are a prefix of each other, in Compare, Less, " +
 		"2-argument Min/Max and Clamp (lo <= hi); Min/Max over N short strings with the answer at each of those positions. Then rapid draws: any type of C20.wide, N from the same classes or uniform in 7..5000, " +
 		"cycles of 1..3 boundary-dense values with 0..3 overriding spots biased to both ends; 1..4 long strings over common patterns with 0..2 edited bytes. NaN never generated. " +
-		"A third of the drawn variadic calls pass a window into a larger poisoned buffer (see C20.wide). One case in 8 is also run as 4 parallel independent copies. " +
+		"A third of the drawn variadic calls pass a window into a larger poisoned buffer (see C20.wide). One case in 16 is also run as 4 parallel independent copies. " +
 		"non-trivial = more than 6 arguments, or a string argument longer than 8 bytes",
 	Enum: enumLong,
 	Gen:  genLong,
-	Run:  RunLong, Quick: 3000, Thorough: 20000,
-	Replicas: 4, ReplicaEvery: 8,
+	Run:  RunLong, Quick: 2500, Thorough: 20000,
+	Replicas: 4, ReplicaEvery: 16,
 })
